@@ -2084,6 +2084,10 @@ func (self *Aof) findRewriteAofFiles() ([]string, error) {
 }
 
 func (self *Aof) loadRewriteAofFiles(aofFilenames []string) (*AofFile, []*AofFile, error) {
+	// a compaction that died has left its temporary files behind: AofFile.Open appends to an existing
+	// file, so this compaction's records would follow the dead one's and every hold be recovered twice
+	_ = os.Remove(filepath.Join(self.dataDir, "rewrite.aof.tmp"))
+	_ = os.Remove(filepath.Join(self.dataDir, "rewrite.aof.tmp.dat"))
 	rewriteAofFile := NewAofFile(self, filepath.Join(self.dataDir, "rewrite.aof.tmp"), os.O_WRONLY, int(Config.AofFileBufferSize))
 	err := rewriteAofFile.Open()
 	if err != nil {
